@@ -96,6 +96,36 @@ pub fn run(api: &str, case: &J) -> J {
             json!({"ok": results})
         },
         "capi_functions" => json!({"ok": FUNCTIONS}),
+        // namespace queries: {"defs": vj grid, "sym": hex, "base": hex, "rec": vj dict | null}
+        "ns_query" => {
+            use libhaystack::defs::namespace::{DefDict, Namespace};
+            let defs = match vj::from(&case["defs"]) { Value::Grid(g) => g, _ => panic!("defs grid") };
+            let ns: &'static Namespace<'static> = Box::leak(Box::new(Namespace::make(defs)));
+            let sym = Symbol::from(vj::uhs(&case["sym"]).as_str());
+            let base = Symbol::from(vj::uhs(&case["base"]).as_str());
+            let names = |v: Vec<&Dict>| -> J { let mut n: Vec<String> = v.iter().map(|d| vj::hex(d.def_name().as_bytes())).collect(); n.sort(); json!(n) };
+            let mut out = serde_json::Map::new();
+            out.insert("has".into(), json!(ns.has(&sym)));
+            out.insert("supertypes".into(), names(ns.supertypes_of(&sym).clone()));
+            out.insert("all_supertypes".into(), names(ns.all_supertypes_of(&sym)));
+            out.insert("subtypes".into(), names(ns.subtypes_of(&sym).iter().collect()));
+            out.insert("all_subtypes".into(), names(ns.all_subtypes_of(&sym)));
+            out.insert("inheritance".into(), names(ns.inheritance(&sym).clone()));
+            out.insert("fits".into(), json!(ns.fits(&sym, &base)));
+            if !case["rec"].is_null() {
+                let rec = vj::dict_from(&case["rec"]);
+                let r = ns.reflect(&rec);
+                out.insert("reflect".into(), names(r.defs.clone()));
+                out.insert("reflect_fits".into(), json!(r.fits(&base)));
+                let f = Filter::try_from(format!("^{}", base.value).as_str());
+                if let Ok(f) = f {
+                    use libhaystack::filter::{eval::EvalContext, Eval};
+                    let ctx = EvalContext::make(&rec, ns, &rec);
+                    out.insert("filter".into(), json!(f.eval(&ctx)));
+                }
+            }
+            json!({"ok": J::Object(out)})
+        }
         // what the Rust API gives for the same inputs (the reference for the entry points that only forward)
         "capi_rust" => {
             use libhaystack::encoding::zinc;
